@@ -19,7 +19,7 @@ EXPLANATION = (
     "interaction outcome, refreshes the cached deltas/combination outcomes (checked through the real get_outcome) and does not raise, with and without explicit interactions. ParameterSet.sample / ProgramSet.sample on the udt demo objects return perturbed copies and leave the source unchanged. "
     "_run_sampled_sim hands the *sampled* parameter set and program set to the simulation. NOT decided (nothing for a solver to vary): independence of the draws across serial/parallel workers (process forking, global RNG state, pool scheduling)."
 )
-GROUP_TIMEOUT = {"quick": 900, "thorough": 2000}
+GROUP_TIMEOUT = {"quick": 1800, "thorough": 3000}
 
 
 class RandStub:
